@@ -16,6 +16,21 @@ Theorem C09_result_wellformed : forall a b nf t, twf a -> twf b -> concat_tables
 Proof. exact concat_wf. Qed.
 Print Assumptions C09_result_wellformed.
 
+(* the columns: a's columns first (a's cells, then b's cells or the column type's empty value), then the columns
+   only b has (empty values for a's rows, then b's cells) *)
+Theorem C09_columns : forall a b nf t,
+  concat_tables a b nf = Ok t ->
+  let find (n : string) (v : list (string * kind * list val)) := lookup n (map (fun '(m, k, c) => (m, (k, c))) v) in
+  view t =
+    (map (fun '(n, k, c) => (n, k, (c ++ match find n (view b) with
+                                        | Some (_, c2) => c2
+                                        | None => repeat (default_cell k) (nrows b) end)%list)) (view a)
+     ++ flat_map (fun '(n, k, c) => match find n (view a) with
+                                    | Some _ => []
+                                    | None => [(n, k, (repeat (default_cell k) (nrows a) ++ c)%list)] end) (view b))%list.
+Proof. exact concat_view. Qed.
+Print Assumptions C09_columns.
+
 Theorem C09_operands_unchanged : forall w a b j,
   (j < List.length (pool w))%nat -> get (fst (step w (OConcat a b))) j = get w j.
 Proof. intros w a b j H. apply step_frame; [exact H|discriminate]. Qed.
